@@ -100,12 +100,7 @@ def run(check, ctx):
     consumer(check, repo, "dsa.blind", "Crypto.PublicKey.DSA", "DsaKey._sign",
              OBJ(("Crypto.PublicKey.DSA", "DsaKey"), _havoc=False, _key={"x": 3, "q": ORDER, "p": PRIME, "g": 4, "y": 5}),
              {"m": 3, "k": 7}, {"min_inclusive": 1, "max_exclusive": ORDER}, "blinding factor in [1, q-1]")
-    ELG = "Crypto.PublicKey.ElGamal"
-    safe = {"Crypto.Math.Primality.generate_probable_safe_prime": lambda i, a, kw, st, node: 23}
-    consumer(check, repo, "elgamal.generate.g", ELG, "generate", None, {"bits": 5, "randfunc": RF}, {"min_inclusive": 2, "max_exclusive": 23},
-             "candidate for the generator in [2, p-1] (squared afterwards)", models_extra=safe, max_depth=2, index=0)
-    consumer(check, repo, "elgamal.generate.x", ELG, "generate", None, {"bits": 5, "randfunc": RF}, {"min_inclusive": 2, "max_exclusive": 22},
-             "private key x in [2, p-2] (documented: 1 < x < p-1)", models_extra=safe, max_depth=2, index=1)
+    elgamal_consumers(check, repo)
     consumer(check, repo, "rsa.blind", "Crypto.PublicKey.RSA", "RsaKey._decrypt_to_bytes",
              OBJ(("Crypto.PublicKey.RSA", "RsaKey"), _havoc=False, _n=PRIME, _e=3, _d=7, _p=11, _q=13, _u=2, _dp=1, _dq=1),
              {"ciphertext": 5}, {"min_inclusive": 1, "max_exclusive": PRIME}, "RSA blinding factor in [1, n-1]")
@@ -283,6 +278,16 @@ def dsa_private_key_rows(check, repo):
     check.ob("K-pw", "K-pw|dsa.generate.x", not wrong, mod.path, fn.lineno,
              extracted="; ".join(wrong[:3]) if wrong else "%d values of c around multiples of q and q-1: x = (c mod (q-1)) + 1, c drawn with N+64 bits" % n,
              expected="FIPS 186-4 B.1.1: 1 <= x <= q-1 for every c (x = c mod q can be 0 and is biased differently)")
+
+
+def elgamal_consumers(check, repo):
+    RF = ABuiltin("vstat.rf")
+    ELG = "Crypto.PublicKey.ElGamal"
+    safe = {"Crypto.Math.Primality.generate_probable_safe_prime": lambda i, a, kw, st, node: 23}
+    consumer(check, repo, "elgamal.generate.g", ELG, "generate", None, {"bits": 5, "randfunc": RF}, {"min_inclusive": 2, "max_exclusive": 23},
+             "candidate for the generator in [2, p-1] (squared afterwards)", models_extra=safe, max_depth=2, index=0)
+    consumer(check, repo, "elgamal.generate.x", ELG, "generate", None, {"bits": 5, "randfunc": RF}, {"min_inclusive": 2, "max_exclusive": 22},
+             "private key x in [2, p-2] (documented: 1 < x < p-1)", models_extra=safe, max_depth=2, index=1)
 
 
 def prime_generation_tapes(check, repo, prop="C18"):
